@@ -3,8 +3,12 @@
  * area, under the deterministic scheduler (hooks H1, H4).  Emits NDJSON
  * traces for Ref_Trace.tla.  (C09)
  *
- * usage: sched_refcount <rc|shared> <pool_depth> <prog0>[,<prog1>..] <mode> [args]
- *   prog: string over U (use / dup) and R (release / free)
+ * usage: sched_refcount <rc|shared|areas> <pool_depth> <prog0>[,<prog1>..] <mode> [args]
+ *   prog: string over U (use / dup) and R (release / free); mode areas also A (ubuf_block_alloc of a new
+ *   buffer: a new memory area) and F (ubuf_block_alloc while the umem manager refuses: must return NULL)
+ * Mode areas: SEVERAL memory areas; every thread starts with a duplicate of one buffer; after the threads
+ * a sequential epilogue (thread 7) allocates a buffer, duplicates it, frees both, then frees whatever the
+ * threads left; events Alloc(t,h,a) Refused(t) Dup(t,h,from) Free(t,h) Return(a,t) End for Areas_Trace.tla.
  *   mode: dfs <pb> <max_runs> | random <runs> <seed> <sw> | replay <digits>
  */
 #include <stdio.h>
@@ -24,16 +28,17 @@
 #include "upipe/ubuf_block_mem.h"
 #include "vsched.h"
 
-static bool shared_mode;
+static bool shared_mode, areas_mode;
 static int pool_depth, nprog;
 static const char *prog[VS_MAXT];
 static const char *progs_arg;
 
-struct ev { char e; uint8_t t; };
+struct ev { char e; uint8_t t; int h, a; };
 #define MAXEV 256
 static struct ev evs[MAXEV];
 static int nev;
-static void log_ev(char e, int t) { if (nev < MAXEV) evs[nev++] = (struct ev){ e, (uint8_t)t }; }
+static void log_ev(char e, int t) { if (nev < MAXEV) evs[nev++] = (struct ev){ e, (uint8_t)t, 0, 0 }; }
+static void log_ev2(char e, int t, int h, int a) { if (nev < MAXEV) evs[nev++] = (struct ev){ e, (uint8_t)t, h, a }; }
 static int tid(void) { int c = vs_current(); return c < 0 ? 7 : c; }
 
 /* ---- rc mode ---- */
@@ -45,9 +50,34 @@ static struct umem_mgr cmem;
 static struct urefcount cmem_rc;
 static int area_allocs, area_frees;
 static void cmem_rc_dead(struct urefcount *r) { }
+/* areas mode: identity of an area = number of the allocation that made it */
+#define MAXAREA 64
+static struct { uint8_t *p; size_t n; } area_tab[MAXAREA];
+static bool refuse_next[VS_MAXT + 8];
+static int area_of_ptr(const uint8_t *p)
+{
+    for (int i = 0; i < area_allocs && i < MAXAREA; i++)
+        if (area_tab[i].p != NULL && p >= area_tab[i].p && p < area_tab[i].p + (area_tab[i].n ? area_tab[i].n : 1))
+            return i;
+    return -1;
+}
+static int area_of_ubuf(struct ubuf *b)
+{
+    const uint8_t *p = NULL;
+    int size = -1;
+    if (!ubase_check(ubuf_block_read(b, 0, &size, &p))) return -1;
+    int a = area_of_ptr(p);
+    ubuf_block_unmap(b, 0);
+    return a;
+}
 static bool cmem_alloc(struct umem_mgr *m, struct umem *u, size_t size)
 {
+    if (areas_mode && refuse_next[tid()]) {
+        refuse_next[tid()] = false;
+        return false;
+    }
     u->buffer = malloc(size ? size : 1);
+    if (areas_mode && area_allocs < MAXAREA) { area_tab[area_allocs].p = u->buffer; area_tab[area_allocs].n = size; }
     u->size = size;
     u->real_size = size;
     u->mgr = m;
@@ -64,19 +94,50 @@ static bool cmem_realloc(struct umem *u, size_t s)
 static void cmem_free(struct umem *u)
 {
     area_frees++;
+    if (areas_mode) { log_ev2('r', tid(), 0, area_of_ptr(u->buffer)); return; }
     log_ev('D', tid());
     /* the memory is deliberately not returned to malloc: a second "free" of
      * the same area must show up in the trace, not crash the harness */
 }
 static struct ubuf_mgr *bmgr;
-static struct ubuf *bufs[VS_MAXT][16];
-static int nbufs[VS_MAXT];
+static struct ubuf *bufs[VS_MAXT + 8][16];
+static int bufh[VS_MAXT + 8][16];
+static int nbufs[VS_MAXT + 8];
+static int next_h;
+static void areas_op(int t, char op)
+{
+    if (op == 'A' || op == 'F') {
+        if (op == 'F') refuse_next[t] = true;
+        struct ubuf *b = ubuf_block_alloc(bmgr, 8);
+        refuse_next[t] = false;
+        if (b == NULL) { log_ev2('f', t, 0, 0); return; }
+        int h = next_h++;
+        log_ev2('a', t, h, area_of_ubuf(b));
+        bufh[t][nbufs[t]] = h;
+        bufs[t][nbufs[t]++] = b;
+    } else if (op == 'U') {
+        if (nbufs[t] == 0) return;
+        int from = bufh[t][0];
+        struct ubuf *d = ubuf_dup(bufs[t][0]);
+        if (d == NULL) return;
+        int h = next_h++;
+        log_ev2('d', t, h, from);
+        bufh[t][nbufs[t]] = h;
+        bufs[t][nbufs[t]++] = d;
+    } else {
+        if (nbufs[t] == 0) return;
+        nbufs[t]--;
+        log_ev2('x', t, bufh[t][nbufs[t]], 0);
+        ubuf_free(bufs[t][nbufs[t]]);
+    }
+}
 
 static void thread_fn(void *arg)
 {
     int t = (int)(intptr_t)arg;
     for (const char *p = prog[t]; *p; p++) {
-        if (!shared_mode) {
+        if (areas_mode) areas_op(t, *p);
+        else if (!shared_mode) {
             if (*p == 'U') { log_ev('U', t); urefcount_use(&rc); }
             else { log_ev('R', t); urefcount_release(&rc); }
         } else {
@@ -96,7 +157,7 @@ static void thread_fn(void *arg)
 
 static void teardown(void)
 {
-    if (shared_mode && bmgr) {
+    if ((shared_mode || areas_mode) && bmgr) {
         ubuf_mgr_release(bmgr);
         bmgr = NULL;
     }
@@ -107,7 +168,32 @@ static void setup(void *ctx)
     vs_reset();
     teardown();
     nev = 0;
-    if (!shared_mode) {
+    if (areas_mode) {
+        area_allocs = area_frees = 0;
+        memset(area_tab, 0, sizeof(area_tab));
+        memset(refuse_next, 0, sizeof(refuse_next));
+        urefcount_init(&cmem_rc, cmem_rc_dead);
+        cmem.refcount = &cmem_rc;
+        cmem.umem_alloc = cmem_alloc;
+        cmem.umem_realloc = cmem_realloc;
+        cmem.umem_free = cmem_free;
+        cmem.umem_mgr_vacuum = NULL;
+        bmgr = ubuf_block_mem_mgr_alloc(pool_depth, pool_depth, &cmem, 0, 0, 0, 0);
+        assert(bmgr != NULL);
+        memset(nbufs, 0, sizeof(nbufs));
+        next_h = 0;
+        areas_op(7, 'A');                       /* the buffer every thread gets a duplicate of */
+        for (int t = 0; t < nprog; t++) {
+            struct ubuf *d = ubuf_dup(bufs[7][0]);
+            assert(d != NULL);
+            int h = next_h++;
+            log_ev2('d', 7, h, bufh[7][0]);
+            bufh[t][0] = h;
+            bufs[t][0] = d;
+            nbufs[t] = 1;
+        }
+        areas_op(7, 'R');
+    } else if (!shared_mode) {
         urefcount_init(&rc, rc_dead);
         for (int t = 1; t < nprog; t++) urefcount_use(&rc);
     } else {
@@ -152,20 +238,36 @@ static void crash_dump(int sig)
 static bool finish(void *ctx, const uint8_t *sched, int len, bool stuck)
 {
     nruns++;
+    if (areas_mode && !crashed && !stuck && !cur_e->overrun) {
+        /* sequential epilogue: structures recycled from the pools must behave like new ones */
+        areas_op(7, 'A'); areas_op(7, 'U'); areas_op(7, 'R'); areas_op(7, 'R');
+        for (int t = 0; t < nprog; t++)
+            while (nbufs[t] > 0) areas_op(t, 'R');
+    }
     if (crashed) log_ev('C', tid());
     uint64_t h = 1469598103934665603ULL;
-    for (int i = 0; i < nev; i++) { h = (h ^ (((uint64_t)(uint8_t)evs[i].e << 8) | evs[i].t)) * 1099511628211ULL; h ^= h >> 29; }
+    for (int i = 0; i < nev; i++) { h = (h ^ (((uint64_t)(uint8_t)evs[i].e << 8) | evs[i].t | ((uint64_t)(evs[i].h & 0xff) << 16) | ((uint64_t)(evs[i].a & 0xff) << 24))) * 1099511628211ULL; h ^= h >> 29; }
     h |= 1;
     uint64_t mask = (1ULL << HBITS) - 1, i = h & mask;
     while (seen[i]) { if (seen[i] == h) return true; i = (i + 1) & mask; }
     seen[i] = h;
     nunique++;
     printf("{\"e\":\"Reset\",\"n\":%d,\"mode\":\"%s\",\"pool\":%d,\"id\":%ld,\"prog\":\"%s\",\"sched\":\"",
-           nprog, shared_mode ? "shared" : "rc", pool_depth, out_id++, progs_arg);
+           nprog, areas_mode ? "areas" : shared_mode ? "shared" : "rc", pool_depth, out_id++, progs_arg);
     for (int k = 0; k < len; k++) putchar('0' + sched[k]);
     printf("\"}\n");
-    for (int k = 0; k < nev; k++)
-        printf("{\"e\":\"%s\",\"t\":%d}\n", evs[k].e == 'U' ? "Use" : evs[k].e == 'R' ? "Release" : evs[k].e == 'C' ? "Crash" : "Destroy", evs[k].t);
+    for (int k = 0; k < nev; k++) {
+        struct ev *e = &evs[k];
+        switch (e->e) {
+        case 'a': printf("{\"e\":\"Alloc\",\"t\":%d,\"h\":%d,\"a\":%d}\n", e->t, e->h, e->a); break;
+        case 'f': printf("{\"e\":\"Refused\",\"t\":%d}\n", e->t); break;
+        case 'd': printf("{\"e\":\"Dup\",\"t\":%d,\"h\":%d,\"from\":%d}\n", e->t, e->h, e->a); break;
+        case 'x': printf("{\"e\":\"Free\",\"t\":%d,\"h\":%d}\n", e->t, e->h); break;
+        case 'r': printf("{\"e\":\"Return\",\"t\":%d,\"a\":%d}\n", e->t, e->a); break;
+        default:
+            printf("{\"e\":\"%s\",\"t\":%d}\n", e->e == 'U' ? "Use" : e->e == 'R' ? "Release" : e->e == 'C' ? "Crash" : "Destroy", e->t);
+        }
+    }
     if (cur_e->overrun || stuck) printf("{\"e\":\"Hang\"}\n");
     printf("{\"e\":\"End\"}\n");
     return nunique < (1L << (HBITS - 1));
@@ -175,6 +277,7 @@ int main(int argc, char **argv)
 {
     if (argc < 6) { fprintf(stderr, "usage\n"); return 2; }
     shared_mode = !strcmp(argv[1], "shared");
+    areas_mode = !strcmp(argv[1], "areas");
     pool_depth = atoi(argv[2]);
     progs_arg = argv[3];
     char *ps = strdup(argv[3]);
